@@ -1523,6 +1523,20 @@ func generateScenarios(prop string, seed uint64, n int, adv bool) []*scenario {
 			sc.Rounds = []roundSpec{{}, {}}
 			sc.Features = []string{"generate-selector", "owned-off-the-ignored-selector"}
 			out = append(out, sc)
+		case prop == "C03" && i%12 == 9:
+			// the update that adopts (or releases) one object is refused while the parent owns other objects:
+			// the sync ends there; the hook is not shown a map with that kind's group left empty
+			sc := g.adoptrace(i, s)
+			for ri := range sc.Rounds {
+				sc.Rounds[ri].MidOps = nil
+			}
+			for _, ref := range sc.childRefs() {
+				f := []J{{"code": 500, "reason": "InternalError"}, {"code": 422, "reason": "Invalid"}, {"code": 403, "reason": "Forbidden"}}[r.Intn(3)]
+				sc.Rounds[0].FaultOn = append(sc.Rounds[0].FaultOn, faultOn{Verb: "update", Kind: ref.Kind, Nth: 0, Fault: f})
+				break
+			}
+			sc.Features = append(sc.Features, "ownership-edit-refused")
+			out = append(out, sc)
 		case prop == "C03" && i%12 == 5:
 			// one controller instance over the whole history; the parent is deleted and re-created under
 			// the same name (new UID, generation 1 again) while its children are left behind as orphans
